@@ -1049,3 +1049,49 @@ def r07_14_field_masks(ctx: Ctx) -> RuleResult:
             extra = [n for n, v in singles.items() if (got or 0) & v and n not in names]
             rr.fail(c.qual, f"{mask}: missing {missing}, unexpected {extra}: a field outside its mask is dropped when the date-time bucket hands the fields to the date / time bucket", loc)
     return rr
+
+
+# ------------------------------------------------------------------------------------------- R07.15 with_* keeps the other settings
+
+
+@rule("C07")
+def r07_15_with_methods_keep_other_settings(ctx: Ctx) -> RuleResult:
+    """`pattern.with_culture(c)`, `with_template_value(v)`, `with_calendar(k)` ... return a copy of the pattern with ONE setting
+    replaced.  The public factories (`create`, `create_with_*`) take only some of the settings and give the others their
+    defaults (two_digit_year_max = 30, the default template): a `with_*` method built on a public factory silently resets what
+    it does not pass, and what was formatted with the old setting no longer parses with the "same" pattern.  Every `with_*`
+    method of a pattern class must therefore construct through the private factory / constructor (or another `with_*`)."""
+    rr = RuleResult("R07.15", "with_* methods of the pattern classes construct through the private factory (all settings passed on), never through the public create* factories", min_instances=10)
+    M = ctx.M
+    for lst in M.classes.values():
+        for c in lst:
+            if not c.mod.rel.startswith("pyoda_time/text/") or c.name.startswith("_") or not c.name.endswith("Pattern"):
+                continue
+            for f in c.methods.values():
+                if isinstance(f.node, ast.Lambda) or not (f.name.startswith("with_") or "__with_" in f.name):
+                    continue
+                rr.inst()
+                bad = next((n for n in own_nodes(f.node) if isinstance(n, ast.Call) and isinstance(n.func, ast.Attribute) and (n.func.attr == "create" or n.func.attr.startswith("create_with_"))), None)
+                if bad is None:
+                    rr.ok({"method": f.qual})
+                else:
+                    rr.fail(f.qual, f"`{unparse(bad)[:70]}` rebuilds the pattern with a public factory: settings the factory does not take (two-digit-year maximum, template value ...) fall back to their defaults", ctx.loc(f, bad))
+    return rr
+
+
+@rule("C07")
+def r07_16_annual_date_day_check_matches_the_type(ctx: Ctx) -> RuleResult:
+    """AnnualDate validates its day against the month lengths of the leap year 2000 (29 February is an annual date).  The annual-date
+    parse bucket repeats that check before constructing the value; it must ask the same question - the ISO calendar's month
+    length in year 2000 - or a value the type accepts and the pattern formats (02-29) is rejected when parsed back."""
+    rr = RuleResult("R07.16", "the annual-date parse bucket bounds the day by the ISO month length of the leap year 2000, like the AnnualDate constructor", min_instances=1)
+    M = ctx.M
+    f = M.func("_AnnualDateParseBucket.calculate_value")
+    rr.inst()
+    tests = [n for n in own_nodes(f.node) if isinstance(n, ast.If) and "day" in unparse(n.test) and any(isinstance(x, ast.Return) for x in n.body)]
+    ok = any("get_days_in_month(2000" in unparse(t.test).replace(" ", "").replace("year=", "") for t in tests)
+    if ok:
+        rr.ok({"bound": next(unparse(t.test)[:80] for t in tests if "get_days_in_month" in unparse(t.test))})
+    else:
+        rr.fail(f.qual, f"the day is bounded by `{unparse(tests[0].test)[:80] if tests else '?'}`, not by the ISO month length in the leap year 2000: 29 February formats and does not parse back", ctx.loc(f, tests[0]) if tests else ctx.loc(f))
+    return rr
